@@ -194,6 +194,12 @@ def generate(ctx):
     for x in specials:
         for y in specials:
             add(Num(x), Num(y), 1, False, 'number-grid')
+    # "never modifies its arguments", literally: a sample of all of the above with both operands in READ-ONLY memory during the calls
+    for c in rng.sample(cases, min(len(cases), 300 if quick else 2000)):
+        t = c.line.split(' ', 3)
+        if len(t) < 4: continue
+        info = dict(c.info); info['tags'] = list(info['tags']) + ['read-only-operands']
+        cases.append(Case('compare %s %d %s' % (t[1], int(t[2]) + 2, t[3]), info))
     return cases
 
 def project(c, out): return strip_suffix(out)
